@@ -108,7 +108,22 @@ def r_delegate_agree(ctx):
                     ctx.violation('%s.%s:wrapper-ignores-container' % (cn, m.name), m.loc(), 'the method never reads or changes self.%s: the operation has no effect / no answer' % attr,
                                   instance='%s.%s works on the wrapped %s' % (cn, m.name, kind))
             if len(calls) != 1 or len(body) != 1 or not isinstance(body[0], (ast.Expr, ast.Return)):
-                continue            # not a pure delegation (e.g. ReplQueue.get wraps popleft in try/except)
+                # not a pure delegation (e.g. ReplQueue.get wraps popleft in try/except).  A method named like an operation of
+                # the wrapped builtin must still hand each of its parameters to that operation: emulating a parameter by other
+                # container calls (`sort(); if reverse: reverse()`) is a different operation (order of equal elements, errors)
+                if m.name in REF[kind]:
+                    same = [c for c in calls if c.func.attr == m.name]
+                    ctx.tick()
+                    if same:
+                        passed = set(x.id for c in same for x in ast.walk(c) if isinstance(x, ast.Name))
+                        lost = [p_ for p_ in m.params[1:] if p_ not in passed]
+                        if lost:
+                            ctx.violation('%s.%s:parameter-not-forwarded' % (cn, m.name), m.loc(same[0]),
+                                          'parameter(s) %s of %s.%s are not handed to %s.%s but emulated around it: the result differs from the builtin for the inputs where the '
+                                          'emulation is not exact' % (lost, cn, m.name, kind, m.name), instance='%s.%s -> %s.%s' % (cn, m.name, kind, m.name))
+                        else:
+                            ctx.ok('%s.%s -> %s.%s (wrapped)' % (cn, m.name, kind, m.name), m.loc(same[0]), 'every parameter reaches the builtin operation')
+                continue
             c = calls[0]
             bname = c.func.attr
             if bname not in REF[kind]:
@@ -612,11 +627,13 @@ def r_lock_guards(ctx):
         ctx.violation('_ReplLockManagerImpl.prolongate:refreshes-nothing', m.loc(), 'prolongate never rewrites a lock entry with the current time: a lock that its live holder keeps '
                       'prolonging still expires after the auto-unlock time while the holder goes on using it', instance='prolongate refreshes the caller\'s locks')
     # isAcquired
-    m = c.methods['isAcquired']
+    m = U.bool_returns_normalised(P, c.methods['isAcquired'])      # `return a and b` is looked at as `if a and b: return True`
     ex = U.explorer(ctx, m)
     res = U.full_run(ctx, m)
+    n_true = 0
     for n in ex.cfg.nodes:
         if n.kind == 'stmt' and isinstance(n.ast, ast.Return) and isinstance(n.ast.value, ast.Constant) and n.ast.value.value is True:
+            n_true += 1
             inst = 'isAcquired is true only for the holder of an unexpired lock'
             okh = _holder_is(P, ex, res, n.id, m, table, m.params[2])
             okt = any(_dominated_by_expiry(ex.cfg, n.id, cmpn) for cmpn, op, flipped in _expiry_compares(P, m, unlock))
@@ -626,6 +643,7 @@ def r_lock_guards(ctx):
             else:
                 ctx.violation('_ReplLockManagerImpl.isAcquired:%s' % ('holder-not-checked' if not okh else 'expiry-not-checked'), m.loc(n.ast),
                               'isAcquired can return True %s' % ('for a lock held by another client' if not okh else 'for an expired lock'), instance=inst)
+    ctx.require(n_true >= 1, 'isAcquired has no path that returns True')
     ctx.expect_min(6)
 
 
